@@ -2,6 +2,7 @@
    decided on the candidate data by the harness and by C10's filter theorems). *)
 From Coq Require Import List Bool Arith Lia.
 From HV Require Import Ord Sprout Tree TreeLemmas TreeInv TreeRun TreeIds Hist HistFacts.
+From HV Require Import DriverPrim Driver DriverFacts GenDriver GenEquivDriver DriverCode.
 Import ListNotations.
 
 (* demes are numbered in creation order; deme 0 is the root.  In every reachable state: at least the root exists; every
@@ -65,3 +66,11 @@ Print Assumptions C07_seed_from_parent.
 
 Example C07_example : exists s, ex_final = Some s /\ map d_par (demes s) = [None; Some 0; Some 0] /\ map d_lvl (demes s) = [0; 1; 1] /\ map d_started (demes s) = [0; 1; 1] /\ map (did (demes s)) [0; 1; 2] = [[]; [0]; [1]].
 Proof. vm_compute. eexists. split; [reflexivity|]. repeat split. Qed.
+
+(* ---------------------------------------------------------------- the same for the TRANSLATED code.
+   Gen/GenDriver.v is regenerated from /repo's current pyhms/tree.py (run, run_step, run_metaepoch, run_sprout, _do_sprout, active_demes,
+   active_non_leaves) and the run_metaepoch methods of EADeme, DEDeme, SHADEDeme, CMADeme, LocalDeme, LHSDeme, SobolDeme on every check;
+   `code_moment c fuel n evs s`: s is a state the translated run() passes through on the event stream evs. *)
+Theorem C07_translated_code_well_formed c fuel n evs s : 1 <= height c -> code_moment c fuel n evs s -> WFT c s.
+Proof. exact (code_moment_wf c fuel n evs s). Qed.
+Print Assumptions C07_translated_code_well_formed.
